@@ -12,4 +12,4 @@ for _f in sorted(glob.glob(os.path.join(_here, "cfg", "C*.py"))):
     CHECKS[os.path.basename(_f)[:-3]] = runpy.run_path(_f)["CHECK"]
 
 # Properties without a committed check (kept current).
-NOT_APPLICABLE = {("C%02d" % i): "check not built yet in this session (planned, see DESIGN.md §4)" for i in range(1, 21)}
+NOT_APPLICABLE = {}  # every listed property is claimed (see cfg/ENABLED)
